@@ -4,6 +4,11 @@ V = os.path.dirname(os.path.dirname(os.path.abspath(__file__)))
 props = [json.loads(l) for l in open(os.path.join(V, "properties.jsonl"))]
 
 CLAIMED = {
+    "C07": dict(
+        text="Coq theorems about the model of the simulation loop for every queue, state and update: after the pending phase of an update of market m exactly the due packages of m have left the queue (executed only if the update is more than latency (+ bet delay for place/replace) after the request; everything else still queued in order, also while other markets of the event are updated); the pending phase is a function of (time, market, state before) only - the triggering book is not an argument (no look-ahead); a placement is acknowledged with the executing update's publish time; pending orders are invisible to the matcher while cancelling/updating/replacing ones are still matched (statuses regenerated from source). The strict '>' threshold is PROVED equal to the real float comparison tabulated from the source for 4 kinds x bet delay 0..12. 'No recorded timestamp precedes the time it could have happened' is REFUTED for arrival fragments by a vm_compute witness (known finding F-C07-1). Tie to code: timing families (spacings at delay-1/delay/delay+1 ms, several requests between updates, event groups, custom latencies, async placement) on the real FlumineSimulation vs. the model, evaluated in Coq; independent checker of effect time / clock / timestamps.",
+        note="Trusted: Coq kernel + vm_compute; gen_consts.py (delay table from real BaseOrderPackage objects); simlib.py; custom latencies are compared away from float-boundary cases only. Print Assumptions: closed under the global context.",
+        technique="Coq proof (queue/filter lemmas over the loop model, table equality by vm_compute) + refutation witness + differential correspondence evaluated in Coq",
+        ref="DESIGN.md §5 C07"),
     "C04": dict(
         text="Coq theorems about the bucket algebra of the simulated order (size_remaining is a derived quantity in code and model, so the identity is definitional; the content is non-negativity, 'only moves size' and completion): every primitive - cancel (full/partial/larger than the remainder), aggressive fragment, passive fill (never more than remains; matched never decreases), fill-or-kill (nothing remains), lapse on suspension, void - is proved to keep the order 'good' and to move exactly the stated amount between exactly the stated buckets. The void clause is proved PARTIAL (nothing cancelled/lapsed before) and the full clause is REFUTED on the faithful model by a vm_compute witness (known finding F-C04-1); three further known findings (late FAILURE responses re-opening a completed order, a control marking a live order VIOLATION, no completion sweep at the closing update) are reproduced on the implementation and printed as KNOWN-FINDING. Tie to code: whole-loop correspondence of the simulation model on the real FlumineSimulation incl. a structured family of requests in flight racing fills/suspensions/removals, evaluated in Coq; independent conservation checker at every strategy call.",
         note="PARTIAL: the per-primitive theorems are not yet lifted to an invariant of the whole loop (fold of step over all event lists); that lift is tested by the correspondence + checker, not proved. LAY limit orders carried to SP: conservation on the total only (cancelled absorbs the difference) as the property states. Trusted: Coq kernel + vm_compute; simlib.py. Print Assumptions: closed under the global context.",
